@@ -501,6 +501,10 @@ class Blockwise(Expr):
     def _name(self):
         if self.operation:
             head = funcname(self.operation)
+            if head == "operation":
+                # Many classes implement ``operation`` as a method of that very
+                # name; the prefix would not tell those classes apart
+                head = funcname(type(self)).lower()
         else:
             head = funcname(type(self)).lower()
         return head + "-" + _tokenize_deterministic(*self.operands)
